@@ -55,6 +55,18 @@ CHECKS = {
  "C17": ("E-ENUM", "model_checking", "bounded-exhaustive enumeration of strings; the model is jsonpath.peg itself, executed by an independent PEG interpreter plus an action model; every predicted trace is compared with the generated parser",
          "For every string of the C02 sets the grammar file is interpreted with pure PEG semantics, the surviving actions are replayed in order through an action model that raises the documented restrictions, and the library must accept exactly when the model accepts, raise the same error class (first in action order) and produce the same error text: position = character offset of the longest accepted prefix, near = the rest of the path from that character.",
          "Trusted: the PEG interpreter h/pegi (its reading of every rule is compared with peg's own normal form in its tests), the action model h/pmodel (actions recognised by source text; degrades to acceptance-and-position checking if an action is unknown), Go's strconv/regexp/encoding/json for validity.", "DESIGN.md §4 C17, §2.5"),
+ "C05": ("E-HIST", "model_checking", "exhaustive exploration of call histories x pool answers (deviation-bounded) on the real package state, instrumented build",
+         "For every path of the bound every history of up to 3 (thorough 4) operations over {call on 4-5 outcome-flipping documents, unrelated Retrieve cycling both pools, scribble on the last result} is executed on a freshly parsed function with every pool answer sequence of at most 1 (2) deviations; each call must equal a fresh Retrieve, earlier result slices must never change, documents stay intact.",
+         "Trusted: the instrumented build (sync.Pool replaced by an explorer-owned free list), replay of a failing execution before it is reported. Histories beyond the bound are not covered.", "DESIGN.md §4 C05"),
+ "C06": ("E-SCHED", "model_checking", "stateless exploration of all thread interleavings and pool answers of small closed drivers under a controlled cooperative scheduler with iterative preemption bounding; separate free-running -race pass",
+         "197 two- and three-thread drivers (shared parsed functions on outcome-flipping documents, Parse||Parse over failing and succeeding paths and configs, Parse||call, two functions on one document, two operations per thread) are explored over every schedule with <=1 deviation at every scheduling point and <=2 at coarse points (thorough: 2 / 3); every call must return its run-alone result, no deadlock or panic, shared documents and functions intact afterwards. The same bodies run free under the race detector with 2..24 goroutines.",
+         "Trusted: scheduling points (lock/pool operations and every named function entry, inserted mechanically) are sufficient only together with the race pass, which is a sampled happens-before detector. More than 3 threads and weak-memory effects are outside the exhaustive part.", "DESIGN.md §4 C06, Appendix B"),
+ "C07": ("E-HIST", "model_checking", "exhaustive enumeration of map iteration orders (owned by the explorer through the instrumented build) x documents with adversarial keys x paths, against the reference model's order",
+         "For 16 paths with wildcard, filter, recursive, multi-name and aggregate steps and every object over 2..4-key subsets of 12 adversarial keys (plus 5..12-key objects), every iteration order at one (thorough: two) of the map ranges executed is explored, optionally after an evaluation on a larger or smaller map with pool answers enumerated; the result sequence must equal the model's in every execution.",
+         "Trusted: vinstr's rewriting of every range over a string-keyed map (it reports ranges it cannot control), the reference model's ascending byte order.", "DESIGN.md §4 C07"),
+ "C19": ("E-HIST", "model_checking", "exhaustive exploration of Parse call histories (depth-bounded, no deduplication) plus explicit-state BFS on a canonical hash of all package globals to a fixpoint; references from fresh subprocesses",
+         "Every history of up to 3 (thorough 4) operations over 105 Parse operations (15 paths failing at every action x 7 configs), 'rebind f in a used Config' and 're-call an earlier function' is replayed; every outcome - exact error, or behavioural fingerprint of the returned function - must equal the same operation performed first in a fresh process. A breadth-first search over the hashed global state reaches a fixpoint (15 states today).",
+         "Trusted: the fingerprint (4 probe documents, accessor-ness, function behaviour); state hidden in closures of the generated matcher is outside the hash (the depth-bounded part does not depend on it).", "DESIGN.md §4 C19"),
 }
 
 def main():
@@ -74,7 +86,7 @@ def main():
             "level_note": note,
             "technique": tech,
         })
-    na = [{"property_id": p, "reason": "check not built yet in this session (work in progress; see DESIGN.md §10 build order) - not a statement that the technique cannot apply"} for p in ALL if p not in CHECKS]
+    na = [{"property_id": p, "reason": "check not built yet (work in progress) - not a statement that the technique cannot apply"} for p in ALL if p not in CHECKS]
     m = {
         "version": 1,
         "setup_cmd": "./setup.sh",
@@ -86,6 +98,10 @@ def main():
             "add_only": True,
         },
         "engines": [
+            {"name": "E-HIST", "path": "/verif/h/sched", "serves_properties": ["C05", "C07", "C19"],
+             "kind_free_text": "history / explicit-state exploration of the real package state on the instrumented build: the explorer owns pool answers and map iteration order (deviation-bounded DFS over choice sequences, prefix replay)"},
+            {"name": "E-SCHED", "path": "/verif/h/sched", "serves_properties": ["C06"],
+             "kind_free_text": "controlled cooperative scheduler over real goroutines with iterative preemption bounding (hand-written; hooks through the verifshim sync replacement), plus a free-running -race pass"},
             {"name": "E-ENUM", "path": "/verif/h/checks", "serves_properties": [p for p in ALL if p in CHECKS and CHECKS[p][0] == "E-ENUM"],
              "kind_free_text": "stateless bounded-exhaustive enumeration (programs x inputs x configurations), sharded over isolated single-threaded worker processes by h/run"},
         ],
